@@ -548,6 +548,67 @@ impl Scenario for C02 {
     fn shrink(case: &Case) -> Vec<Case> {
         shrink_case(case)
     }
+    /// Thorough tier: a seeded sample of faulted inputs (the shortest member
+    /// of each distinct decode path seen by the monitored reader) replayed
+    /// through the crate's SliceReader under Miri.
+    fn extra(tier: Tier, seed: u64, obs: &mut Obs) -> Vec<(serde_json::Value, Failure)> {
+        if tier != Tier::Thorough {
+            return Vec::new();
+        }
+        let mut by_path: std::collections::BTreeMap<u64, (Vec<u8>, Entry)> = std::collections::BTreeMap::new();
+        let mut scratch = Obs::default();
+        for run in 0..6u64 {
+            let mut rng = Rng::new(crate::rng::run_seed(seed, "C02-miri-sample", run));
+            let bases = base_messages(&mut rng, Tier::Quick, &mut scratch);
+            for base in bases {
+                if base.len() > 400 {
+                    continue;
+                }
+                let lay = layout_of(&base);
+                let mut singles: Vec<(&'static str, Vec<u8>)> = vec![("none", base.clone())];
+                enumerate_single_faults(&base, &lay, &mut |k, o| singles.push((k, o)));
+                for (_k, o) in singles {
+                    for entry in [Entry::Validate(0), Entry::Validate(7), Entry::Greedy] {
+                        let bytes = if entry == Entry::Greedy && o.len() >= 12 && o[0] & 1 != 0 {
+                            o[12..].to_vec()
+                        } else {
+                            o.clone()
+                        };
+                        if let Ok((_, _, mon)) = run_entry(&bytes, &entry, &ReaderCfg::Slice, false) {
+                            let e = by_path.entry(mon.path).or_insert_with(|| (bytes.clone(), entry.clone()));
+                            if bytes.len() < e.0.len() {
+                                *e = (bytes, entry.clone());
+                            }
+                        }
+                    }
+                }
+            }
+        }
+        let mut lines = Vec::new();
+        for (_p, (b, e)) in by_path.into_iter().take(300) {
+            lines.push(match e {
+                Entry::Greedy => format!("G {}", to_hex(&b)),
+                Entry::Validate(i) => format!("M {} {}", i, to_hex(&b)),
+                Entry::TryRead => format!("M 2 {}", to_hex(&b)),
+            });
+        }
+        match crate::props::c19_side::run_miri_sample("C02", &lines) {
+            Ok(n) => {
+                obs.add("miri-sample-inputs-replayed", n);
+                obs.evaluations += n;
+                Vec::new()
+            }
+            Err((true, d)) => vec![(
+                serde_json::Value::Null,
+                Failure::new("C02", "miri-memory-monitor", "miri-sample", d),
+            )],
+            Err((false, why)) => {
+                obs.count("note:miri-unavailable");
+                println!("NOTE C02: Miri sample skipped ({why})");
+                Vec::new()
+            }
+        }
+    }
     fn meta() -> Meta {
         Meta {
             rule: "same workload and fault enumeration as C01; each delivered octet string is decoded through harness implementations of the public Reader trait (contiguous borrowed T=&[u8]; owning T=Vec<u8>; scatter/gather segments with PRNG chunk boundaries) that check the precondition of every call (fixed-width read needs N octets, skip/subreader need n<=remaining; sub-readers are confined to their own octets) and through the crate's SliceReader; results and final len() must be identical on all of them. The dev-profile worker additionally runs with std's unsafe-precondition checks (abort on a false get_unchecked/unwrap_unchecked precondition). distinct_nontrivial = distinct (delivered octets, fault kind) pairs.",
